@@ -74,7 +74,10 @@ func registerSched() {
 	const c15Cycles = 24
 	run.Register(&SchedCheck{Id: "C15", Profile: "closed", Quick: 1600, Thorough: 24000, TimeoutCase: 180 * time.Second,
 		Gen: func(seed int64, idx int, tier string) *spec.Case {
-			if idx%3 == 1 { // a third of the closed systems are department-contention clusters (gen.Contention)
+			if idx%3 == 1 { // a third of the closed systems are department-contention clusters (gen.Contention) ...
+				if (idx/3)%4 == 3 { // ... a quarter of those clusters with scattered free devices (gen.Fragmented)
+					return gen.Fragmented(seed, idx, tier)
+				}
 				return gen.Contention(seed, idx, tier)
 			}
 			return nil
